@@ -184,6 +184,11 @@ def run_shard(ctx):
     rng = ctx.rng
     if ctx.shard == 0:
         direction_c(ctx)
+    if ctx.shard == 6:
+        # tokens joserfc produces from an object it parsed before (a gateway forwarding what it received, possibly with another AAD or another
+        # protected member) are read by the reference as well: the cases are C04's, the reference verdict is what counts here
+        from .c04 import reencrypt_cases
+        reencrypt_cases(ctx, rng)
     k = 0
     forms = ["compact", "flattened", "general"]
     for alg in g.ALGS:
